@@ -9,6 +9,9 @@ CONSTANTS
   MaxOps = 13
   MaxRetry = 0
   Stale = FALSE
+  Outcomes = {"sent"}
+  MppRetry = {0}
+  Bug = "none"
 CONSTRAINT Bound
 VIEW View
 INVARIANT NeverBoth
